@@ -22,6 +22,30 @@ def programs(tier, seed, small):
     n = (120 if small else 14) if tier == "quick" else (1200 if small else 60)
     for i in range(n):
         progs.append(rg.program("rand/%d" % i, rg.rnd.randint(1, 6), ["plain", "plain", "g1", "g0", "ign"][i % 5], fxp=(i % 3 == 0)))
+    # the same random programs with an explicit prove() after the first half of their calls, and a public value created after it
+    import copy
+    for i in range(0, min(n, 40 if small else 6), 2):
+        q = copy.deepcopy(progs[i])
+        q["id"] = "mid/%d" % i
+        k = max(1, len(q["steps"]) // 2)
+        # registers are numbered by step: the inserted steps go to the very end of the numbering only if nothing refers past them,
+        # so they are placed where they do not shift any reference: after the last step, followed by new calls on fresh registers
+        def nregs(steps):
+            # every step fills one register, the steps of nested bodies included
+            n = 0
+            for st in steps:
+                n += 1
+                for key in ("body",):
+                    if isinstance(st.get(key), list):
+                        n += nregs(st[key])
+                for key in ("t", "f"):
+                    if isinstance(st.get(key), dict) and isinstance(st[key].get("body"), list):
+                        n += nregs(st[key]["body"])
+            return n
+        nreg = nregs(q["steps"])
+        q["steps"] = q["steps"] + [{"op": "prove"}, {"op": "new", "kind": "pub", "ty": "int", "v": 2}, {"op": "new", "kind": "priv", "ty": "int", "v": 3},
+                                   {"op": "bin", "name": "mul", "a": {"r": nreg + 1}, "b": {"r": nreg + 2}}, {"op": "meth", "name": "val", "a": {"r": nreg + 3}}]
+        progs.append(q)
     # straight families: one of each operator with mixed signs
     k = 0
     for op in gen.BIN_ARITH + gen.BIN_CMP:
